@@ -133,6 +133,71 @@ def main():
         res.case(("beam-frame", bdim, rep % 8 == 0, rep % 3 == 0))
         res.count(f"beam-frame:dim{bdim}")
 
+    # ---------------- (a'') the geometric objects of a problem moved with their own movers (Line / Domain / Circle / Points . Translate / Rotate / Symmetry) ----------------
+    # a beam problem is moved by moving its mesh AND the lines its members are defined on; the moved geometry must be where the same
+    # transformation, written independently (Rodrigues / Householder), puts it, in place and as a copy, and the member built on the moved
+    # line must answer like the original member
+    from EasyFEA.Geoms import Circle as _Circle, Points as _Points
+    for rep in range(6 if not thorough else 18):
+        kindg = ["rotation", "reflection", "translation"][rep % 3]
+        descg, Qg, moverg, pmapg = draw_transform(rng, 3, kindg)
+        geoms = [("Line", lambda: Line(Point(0.5, -0.25, 0.75), Point(2.5, 1.0, -0.5), 0.5)), ("Domain", lambda: Domain(Point(-1.0, 0.5, 0.0), Point(1.5, 2.0, 0.0), 0.5)),
+                 ("Circle", lambda: _Circle(Point(0.25, 0.5, 0.0), 1.5, 0.5)), ("Points", lambda: _Points([(0, 0, 0), (2, 0, 1), (2, 1, 0), (0.5, 1.5, -1)], 0.5))]
+        for gname, make in geoms:
+            res.case(("geometry mover", gname, kindg))
+            identg = dict(geometry=gname, transform=descg)
+            try:
+                g0 = make()
+                X0 = np.asarray(g0.coord, float).copy()
+                gcopy = moverg_copy = None
+                if kindg == "rotation":
+                    gcopy = g0.Rotate(descg["theta"], tuple(descg["center"]), tuple(descg["axis"]), copy=True)
+                elif kindg == "reflection":
+                    gcopy = g0.Symmetry(tuple(descg["point"]), tuple(descg["normal"]), copy=True)
+                else:
+                    gcopy = g0.Translate(*descg["t"], copy=True)
+                Xc = np.asarray(gcopy.coord, float)
+                Xstill = np.asarray(g0.coord, float)
+                moverg(g0)
+                Xin = np.asarray(g0.coord, float)
+                wantg = pmapg(X0)
+            except Exception as ex:  # noqa: BLE001
+                res.fail(f"geometry mover raises geometry={gname} move={kindg}", f"{type(ex).__name__}: {str(ex)[:150]}", identg)
+                continue
+            if not (np.abs(Xstill - X0).max() <= 1e-12):
+                res.fail(f"geometry moved as a copy changes the original geometry={gname} move={kindg}", f"the points of the original moved by {np.abs(Xstill - X0).max():.2e}", identg)
+            for label, Xm in (("copy=True", Xc), ("in place", Xin)):
+                if not (np.abs(Xm - wantg).max() <= 1e-12 * (1 + np.abs(wantg).max())):
+                    res.fail(f"geometric object not moved like the problem geometry={gname} move={kindg}",
+                             f"{gname}.{ {'rotation': 'Rotate', 'reflection': 'Symmetry', 'translation': 'Translate'}[kindg] }(...) ({label}): points {Xm.tolist()} instead of {wantg.tolist()} "
+                             f"(a member defined on this line keeps its old fiber while its mesh moves)", dict(identg, how=label))
+                    break
+        # a cantilever defined on a line, moved by moving the line itself: same response in its own axes
+        res.case(("beam on a moved line", kindg))
+        identb = dict(beam="SEG2", transform=descg, ops=["line = Line(A, B)", "line moved with its own mover", "Beam.Isotropic(3, line, ...)", "tip force"])
+        try:
+            tips = []
+            for movedb in (False, True):
+                lineb = Line(Point(0.5, -0.25, 0.75), Point(0.5 + 4.0 * 2 / 3, -0.25 + 4.0 / 3, 0.75 + 4.0 * 2 / 3), 4.0 / 3)
+                yb = np.array([1.0, -2.0, 0.0])
+                fb = np.array([0.25, 0.5, -0.75])
+                if movedb:
+                    moverg(lineb)
+                    yb, fb = Qg @ yb, Qg @ fb
+                bmb = Models.Beam.Isotropic(3, lineb, sect_f, 1000.0, 0.25, tuple(yb))
+                mshb = Mesher().Mesh_Beams([bmb], elemType=ElemType("SEG2"))
+                sb = Simulations.Beam(mshb, Models.Beam.BeamStructure([bmb]))
+                pA_, pB_ = np.asarray(lineb.coord[0], float), np.asarray(lineb.coord[1], float)
+                sb.add_dirichlet(mshb.Nodes_Point(Point(*pA_)), [0] * 6, sb.Get_unknowns())
+                sb.add_neumann(mshb.Nodes_Point(Point(*pB_)), list(fb), ["x", "y", "z"])
+                ub = np.asarray(sb.Solve()).reshape(-1, 6)
+                tips.append(ub[mshb.Nodes_Point(Point(*pB_))[0], :3].copy())
+            errb = np.abs(tips[1] - Qg @ tips[0]).max() / (1e-30 + np.abs(tips[0]).max())
+            if not (errb <= 1e-8):
+                res.fail(f"beam on a line moved with its own mover move={kindg}", f"tip displacement {tips[1].tolist()} instead of the moved one {(Qg @ tips[0]).tolist()} (relative {errb:.2e})", identb)
+        except Exception as ex:  # noqa: BLE001
+            res.fail(f"beam on a moved line raises move={kindg}", f"{type(ex).__name__}: {str(ex)[:200]}", identb)
+
     # ---------------- (b) continuum problems ----------------
     types = (M.ALL_2D + M.ALL_3D) if thorough else ["TRI3", "TRI6", "QUAD4", "QUAD8", "TETRA4", "TETRA10", "HEXA8", "PRISM6"]
     laws = ["iso", "ti", "ortho", "aniso"]
